@@ -264,4 +264,111 @@ theorem invX_DO {cfg : Cfg} {d : Disp (FullStH cfg)} (h : InvX cfg d) : Chunk.R.
   | endLex s ln hJ hc hg hp hk =>
     exact key _ (endTag_fault_none cfg s hJ ln) _ hc.fault
 
+/-! ## the operations from `idle` -/
+
+theorem ho_of_cg {e : Err} (h : CG (fun _ => False) (fun _ => False) e) : HO e := by
+  rcases h with h | h | h | h
+  · exact Or.inl h
+  · exact h.elim
+  · exact h.elim
+  · exact Or.inr h
+
+/-- `handle_tag` from `idle`, any valid tag lexeme: a whole start- / end-tag event (Thm/Full6 `handleTag_lexer_genV`) -/
+theorem U_idle_tag (cfg : Cfg) (d : Disp (FullStH cfg)) (hp : d.pendingAux = false) (hg : d.gotFlagsFromHint = false)
+    (hJ : J2 cfg d.ctl.1.1) (inp : Bytes) (lx : TagLexeme) (hv : TagArgsOK inp lx) :
+    UPost cfg (Disp.handleTag (fullCtlH cfg) inp lx d) := by
+  have hh := Hom.hom_handleTag (hintCtl_hom (fullCtl cfg)) inp lx d
+  have hpost := handleTag_lexer_genV cfg (J2 cfg) _ _ ValidEv (J2_evInvV cfg) (Hom.mapD Prod.fst d) ⟨hp, hg⟩ hJ inp lx
+    (lexV_of_argsOK hv)
+  rw [← hh] at hpost
+  refine ⟨fun a ha => ?_, fun e he => ho_of_cg (hpost.2 e he)⟩
+  obtain ⟨hi', hJ'⟩ := hpost.1 a ha
+  exact .idle hi'.1 hi'.2 hJ'
+
+/-- `handle_non_tag_content` from `idle` -/
+theorem U_idle_nonTag (cfg : Cfg) (d : Disp (FullStH cfg)) (hp : d.pendingAux = false) (hg : d.gotFlagsFromHint = false)
+    (hJ : J2 cfg d.ctl.1.1) (inp : Bytes) (lx : NonTagLexeme) :
+    UPost cfg (Disp.handleNonTag (fullCtlH cfg) inp lx d) := by
+  have hh := Hom.hom_handleNonTag (hintCtl_hom (fullCtl cfg)) inp lx d
+  have hpost := handleNonTag_lexer_other cfg (J2 cfg) (J2_evInv cfg).other (Hom.mapD Prod.fst d) ⟨hp, hg⟩ hJ inp lx
+  rw [← hh] at hpost
+  refine ⟨fun a ha => ?_, fun e he => hpost.2 e he⟩
+  obtain ⟨hi', hJ'⟩ := hpost.1 a ha
+  exact .idle hi'.1 hi'.2 hJ'
+
+theorem startTag_err_sites (s : St) (name : LocalName) (ns : Model.Ns) (hf : s.fault = none) (e : Err)
+    (h : (startTag s name ns).2 = .err e) : e = .panic vmMsg ∨ e = .panic dispMsg := by
+  unfold startTag at h
+  rw [hf] at h
+  dsimp only at h
+  unfold startTagCore at h
+  split at h
+  · cases h
+  · split at h
+    · simp only [StartTagRes.err.injEq, vmErr] at h; exact Or.inl h.symm
+    · simp only at h
+      split at h
+      · cases h
+      · rename_i e' he'
+        simp only [StartTagRes.err.injEq] at h
+        subst h
+        unfold St.afterVm at he'
+        split at he'
+        · simp only [Except.error.injEq, dispErr] at he'; exact Or.inr he'.symm
+        · cases he'
+    · cases h
+
+/-- from a `J2` state `handle_start_tag` does not fail -/
+theorem startTag_no_err (cfg : Cfg) (s : St) (hJ : J2 cfg s) (n : LocalName) (ns : Model.Ns) (e : Err) :
+    (startTag s n ns).2 ≠ .err e := by
+  intro h
+  obtain ⟨_, c2⟩ := (J2_evInv cfg).start s n ns ⟨[], [], false⟩ [] [] ns false [] ⟨0, 0⟩ 0 hJ
+  have hce : (ctlStep cfg s (.start n ns ⟨[], [], false⟩ (.startTag [] [] ns false [] ⟨0, 0⟩ 0))).2 = some e := by
+    simp only [ctlStep, startPhase, h]
+  have hcls := c2 e hce
+  rcases startTag_err_sites s n ns hJ.1.fault e h with h' | h' <;> subst h' <;>
+    rcases hcls with h1 | (h1 | h1) | h1 <;> first | (cases h1; done) | (simp only [Err.panic.injEq] at h1; revert h1; decide)
+
+theorem isEmpty_nst {f : Model.Flags} (h : f.isEmpty = true) : f.nextStartTag = false ∧ f.nextEndTag = false := by
+  cases f
+  simp only [Model.Flags.isEmpty, Bool.and_eq_true, Bool.not_eq_true'] at h
+  exact ⟨h.1.1.2, h.1.2⟩
+
+/-- the start-tag hint from `idle`: the first half of a start-tag event — or the whole event, if no token is wanted -/
+theorem U_idle_startHint (cfg : Cfg) (d : Disp (FullStH cfg)) (hp : d.pendingAux = false) (hg : d.gotFlagsFromHint = false)
+    (hJ : J2 cfg d.ctl.1.1) (n : LocalName) (ns : Model.Ns) :
+    UPost cfg (Disp.startTagHint (fullCtlH cfg) n ns d) := by
+  unfold Disp.startTagHint
+  have h2 : ((fullCtlH cfg).startTag d.ctl n ns).2 = (startTag d.ctl.1.1 n ns).2 := rfl
+  have h1 : ((fullCtlH cfg).startTag d.ctl n ns).1.1.1 = (startTag d.ctl.1.1 n ns).1 := rfl
+  have h3 : ((fullCtlH cfg).startTag d.ctl n ns).1.2 = some true := rfl
+  generalize (fullCtlH cfg).startTag d.ctl n ns = r at h1 h2 h3
+  dsimp only
+  cases hr : (startTag d.ctl.1.1 n ns).2 with
+  | err e => exact absurd hr (startTag_no_err cfg _ hJ n ns e)
+  | infoRequest =>
+    rw [h2, hr]
+    refine ⟨fun a _ => ?_, fun e he => by cases he⟩
+    exact .auxPend d.ctl.1.1 n ns hJ hr (by show EqT _ r.1.1.1; rw [h1]; exact EqT.refl _) rfl rfl
+  | flags f =>
+    rw [h2, hr]
+    unfold Disp.applyHintFlags Disp.nextDirective
+    dsimp only
+    refine ⟨fun a _ => ?_, fun e he => by cases he⟩
+    cases hfe : f.isEmpty with
+    | false =>
+      exact .startLex d.ctl.1.1 n ns f hJ hr (by show EqT _ r.1.1.1; rw [h1]; exact EqT.refl _) rfl rfl hp h3
+    | true =>
+      refine .idle hp ?_ ?_
+      · rfl
+      · show J2 cfg r.1.1.1
+        rw [h1]
+        obtain ⟨c1, _⟩ := (J2_evInv cfg).start d.ctl.1.1 n ns ⟨[], [], false⟩ [] [] ns false [] ⟨0, 0⟩ 0 hJ
+        have hce : ctlStep cfg d.ctl.1.1 (.start n ns ⟨[], [], false⟩ (.startTag [] [] ns false [] ⟨0, 0⟩ 0)) =
+            ((startTag d.ctl.1.1 n ns).1, none) := by
+          simp only [ctlStep, startPhase, hr, tokIf, (isEmpty_nst hfe).1, Bool.false_eq_true, if_false]
+        have := c1 (by rw [hce])
+        rw [hce] at this
+        exact this
+
 end LolHtml.Thm.Full
